@@ -46,6 +46,8 @@ def runs(tier):
         ("pairwise distinct weights with tied paths: G(4) x PM, G(5) with at most 6 edges x PM (all assignments of 1..m)", [["--n", 4, "--alpha", "PM"], ["--n", 5, "--alpha", "PM", "--max-m", 6]]),
         ("blob grammar K=3,T=2 x patterns U, M2, M3", [["--grammar", "blobs:3:2", "--alpha", a] for a in ("U", "M2", "M3")]),
         ("dense families x U", [["--families", "K:6,K:7,wheel:6,prism:4,petersen,Kb:3:4,grid:3:4,cube:3", "--alpha", "U"]]),
+        ("complete graphs K8..K11 and K8 / K9 with pendant vertices x menus R9x100, R3x100, R30x40 (supports with at least |V| entries before the last phase: the search-from-every-vertex branch of the signed variant; Horton reference)",
+         [["--families", "K:8,K:9,K:10,K:11,Kp:8:1,Kp:9:2,pK:8:1", "--alpha", a, "--wchunks", 8] for a in ("R9x100", "R3x100", "R30x40")]),
         ("dense families x menu Q36x100 (100 pseudo-random dyadic weightings, quarters)", [["--families", "K:6,K:7,Kp:7:1,wheel:7,Kb:3:4", "--alpha", "Q36x100", "--wchunks", 4]]),
         ("symmetric families (antiprisms, prisms, Moebius ladders, ...) under 60 renumberings x U and under 30 renumberings x M2",
          [["--families", FAMS_SYM, "--relabel", 60, "--alpha", "U"], ["--families", FAMS_SYM, "--relabel", 30, "--alpha", "M2"]]),
